@@ -11,7 +11,7 @@
    PART 1 (trusted): the per-lane semantics of the intrinsics, transcribed from the Intel
    Intrinsics Guide pseudo-code.  PART 2: the Rust helpers and kernel bodies, transcribed call
    for call (same sequence of intrinsics).  No proofs in this file. *)
-From PV Require Import Base.MachineInt.
+From PV Require Import Base.MachineInt Model.Znx Model.Limbs Model.Ring.
 Open Scope Z_scope.
 
 Definition to_u (x : Z) : Z := wrapu 64 x.
@@ -324,3 +324,101 @@ Definition b_from_znx64_lane_avx (oq xval : Z) : Z :=
   mm_add xl add.
 Definition b_from_znx64_k_avx (q x : Z) : Z :=
   store_u64 (b_from_znx64_lane_avx (load_u64 (q - 2 ^ 63 mod q)) x).
+
+(* ------------------------------------------------------------------ *)
+(* znx_avx/automorphism.rs and znx_avx/switch_ring.rs                   *)
+(* ------------------------------------------------------------------ *)
+
+(* _mm256_i64gather_epi64(base_addr, vindex, 8): dst lane := MEM[base_addr + SignExtend64(vindex lane) * 8],
+   i.e. element `vindex` of the i64 slice.  An out-of-bounds index is undefined behaviour in Rust; the model
+   returns 0 there and the theorems show that every index is in bounds. *)
+Definition mm_i64gather (a : list Z) (vindex : Z) : Z := nthZ a (Z.to_nat vindex).
+
+(* inv_mod_pow2(p, bits): usize (64-bit) wrapping arithmetic, i: u32 doubled each round *)
+Fixpoint inv_mod_pow2_loop (fuel : nat) (p bits i x : Z) : Z :=
+  match fuel with
+  | O => x
+  | S f =>
+    if i <? bits then
+      let x' := wrapu 64 (x * wrapu 64 (2 - wrapu 64 (p * x))) in
+      inv_mod_pow2_loop f p bits (wrapu 32 (i * 2)) x'
+    else x
+  end.
+Definition inv_mod_pow2 (p bits : Z) : Z :=
+  Z.land (inv_mod_pow2_loop 32 p bits 1 1) (wrapu 64 (wrapu 64 (1 * 2 ^ bits) - 1)).
+
+(* one lane of the main loop: t_base broadcast, off = this lane's entry of lane_offsets *)
+Definition automorphism_lane_avx (n t_base off : Z) (a : list Z) : Z :=
+  let n_minus1_vec := mm_set1 (n - 1) in
+  let mask_2n_vec := mm_set1 (2 * n - 1) in
+  let mask_1n_vec := mm_set1 (n - 1) in
+  let t_base_vec := mm_set1 t_base in
+  let t_vec := mm_and (mm_add t_base_vec off) mask_2n_vec in
+  let idx_vec := mm_and t_vec mask_1n_vec in
+  let sign_mask := mm_cmpgt t_vec n_minus1_vec in
+  let vals := mm_i64gather a idx_vec in
+  let vals_x := mm_xor vals sign_mask in
+  mm_sub vals_x sign_mask.
+
+Fixpoint automorphism_loop_avx (span : nat) (n inv step t_base : Z) (a : list Z) : list Z :=
+  match span with
+  | O => []
+  | S s =>
+    let mask_2n := 2 * n - 1 in
+    (* lane_offsets = _mm256_set_epi64x((inv*3) & mask, (inv*2) & mask, inv, 0): lane 0 is the LAST argument *)
+    automorphism_lane_avx n t_base 0 a ::
+    automorphism_lane_avx n t_base inv a ::
+    automorphism_lane_avx n t_base (Z.land (wrapu 64 (inv * 2)) mask_2n) a ::
+    automorphism_lane_avx n t_base (Z.land (wrapu 64 (inv * 3)) mask_2n) a ::
+    automorphism_loop_avx s n inv step (Z.land (wrapu 64 (t_base + step)) mask_2n) a
+  end.
+
+(* znx_automorphism_avx(p, res, a): r0 = prior content of res *)
+Definition znx_automorphism_avx (p : Z) (r0 a : list Z) : list Z :=
+  let nn := length a in
+  let n := Z.of_nat nn in
+  if Nat.eqb nn 0 then r0
+  else if Nat.ltb nn 4 then znx_automorphism_onto 64 p r0 a
+  else
+    let two_n := wrapu 64 (n * 2) in
+    let span := Nat.shiftr nn 2 in
+    let bits := Z.log2 two_n in                                  (* trailing_zeros of a power of two *)
+    let mask_2n := two_n - 1 in
+    (* p_2n = (((p & mask_2n as i64) + two_n as i64) as usize) & mask_2n *)
+    let p_2n := Z.land (wrapu 64 (wrap 64 (Z.land p mask_2n + two_n))) mask_2n in
+    let inv := inv_mod_pow2 p_2n bits in
+    let step := Z.land (wrapu 64 (inv * 2 ^ 2)) mask_2n in
+    automorphism_loop_avx span n inv step 0 a ++ skipn (4 * span) r0.
+
+(* znx_switch_ring_avx: downsampling main loop (base, step, bump are vectors; base lanes are all equal) *)
+Fixpoint switch_ring_down_loop_avx (span : nat) (gap base : Z) (a : list Z) : list Z :=
+  match span with
+  | O => []
+  | S s =>
+    (* step = _mm256_setr_epi64x(0, gap, 2*gap, 3*gap): lane 0 is the FIRST argument *)
+    let idx (st : Z) := mm_add base st in
+    mm_i64gather a (idx 0) :: mm_i64gather a (idx gap) ::
+    mm_i64gather a (idx (wrap 64 (2 * gap))) :: mm_i64gather a (idx (wrap 64 (3 * gap))) ::
+    switch_ring_down_loop_avx s gap (mm_add base (mm_set1 (wrap 64 (4 * gap)))) a
+  end.
+
+(* upsampling: zero, then for i in (0..n_in).step_by(4): four strided scalar stores of the 4 extracted lanes *)
+Definition switch_ring_up_avx (n_in gap : nat) (n_out : nat) (a : list Z) : list Z :=
+  fold_left (fun r c =>
+     let i := (4 * c)%nat in
+     let p0 := (i * gap)%nat in
+     upd (upd (upd (upd r p0 (nthZ a i)) (p0 + gap) (nthZ a (i + 1))) (p0 + gap + gap) (nthZ a (i + 2)))
+         (p0 + gap + gap + gap) (nthZ a (i + 3)))
+    (seq 0 ((n_in + 3) / 4)) (zeros n_out).
+
+Definition znx_switch_ring_avx (n_out : nat) (r0 a : list Z) : list Z :=
+  let n_in := length a in
+  if Nat.eqb n_in n_out then a
+  else if Nat.ltb (Nat.min n_in n_out) 4 then znx_switch_ring n_out r0 a
+  else if Nat.ltb n_out n_in then
+    let gap_in := (n_in / n_out)%nat in
+    let span := Nat.shiftr n_out 2 in
+    switch_ring_down_loop_avx span (Z.of_nat gap_in) mm_setzero a ++ skipn (4 * span) r0
+  else
+    let gap_out := (n_out / n_in)%nat in
+    switch_ring_up_avx n_in gap_out n_out a.
